@@ -135,6 +135,13 @@ RunResult WorldT::execute(json const& plan) const
                 es = plan["problem"]["along"]["driver"].value("epsilon_step", es);
             oo.field_disp_tol = 2 * di;
             oo.field_rel_tol = es;
+            auto const& al = plan["problem"]["along"];
+            if (al.contains("field"))
+                for (int k = 0; k < 3; ++k)
+                    oo.field_tesla[k] = al["field"][k].get<double>();
+            oo.field_delta_chord = 0.025;  // FieldDriverOptions default [cm]
+            if (al.contains("driver"))
+                oo.field_delta_chord = al["driver"].value("delta_chord", oo.field_delta_chord);
         }
         if (std::getenv("VSIM_TRACE"))
         {
